@@ -1,5 +1,6 @@
 import MwVerif.Gen.Writers
 import MwVerif.Props.C07
+import MwVerif.Lemmas.Spans.Lossless
 /-!
 # C08 — rendering is total and complete (dispatch level)
 
@@ -21,3 +22,23 @@ theorem c08_odf_dispatch_total :
     rows.all (fun r => !r.2.1 || r.2.2.2 || r.1 = "Text" || r.1 = "Book") = true := by decide +kernel
 
 end MwVerif.Gen.Writers
+
+namespace MwVerif.Spans
+
+/-- **C08 (span normalisation keeps every cell).**  `rltables.check_spans`, which prepares a table with
+`colspan`/`rowspan` cells for layout, only adds filler cells: in every row the content cells of the result are the
+content cells of the input, in order — for every table, every span value (also spans reaching beyond the table). -/
+theorem c08_check_spans_lossless (rows : List (List Cell)) : (checkSpans rows).map realIds = rows.map realIds := by
+  unfold checkSpans
+  rw [realIds_pass3, realIds_pass2, realIds_pass1]
+
+/-- **C08 (the grid is rectangular).**  After `check_spans` all rows have the same number of cells, which is what the
+layout engine is handed. -/
+theorem c08_check_spans_rectangular (rows : List (List Cell)) :
+    ∀ r ∈ checkSpans rows, r.length = maxLen (pass2 (pass1 rows)) := pass3_rectangular _
+
+/-- a 2x2 block cell over a 3-column table: fillers behind it and below it, the cells of the spanned row keep their place behind them. -/
+example : checkSpans [[⟨2, 2, 1⟩, ⟨1, 1, 2⟩], [⟨1, 1, 3⟩], [⟨1, 1, 4⟩, ⟨1, 1, 5⟩, ⟨1, 1, 6⟩]]
+    = [[⟨2, 2, 1⟩, ⟨1, 2, 0⟩, ⟨1, 1, 2⟩], [⟨2, 1, 0⟩, ⟨1, 1, 0⟩, ⟨1, 1, 3⟩], [⟨1, 1, 4⟩, ⟨1, 1, 5⟩, ⟨1, 1, 6⟩]] := by decide
+
+end MwVerif.Spans
